@@ -195,8 +195,30 @@ fn dhw_letters() -> Vec<Letter> {
     ]
 }
 
+/// DHW12: monthly DHW buildings with irregular hundredths (sums taken in different orders differ in their last bits): a
+/// biomass boiler whose only electricity is its auxiliaries (in one line, in two lines), with and without declared output,
+/// and a heat pump with PV and auxiliaries
+fn dhw12_bases() -> Vec<(String, String)> {
+    let ser = |a: f64, b: u64, c: u64| -> String { (0..12u64).map(|i| format!("{:.2}", a + ((i * b + c) % 23) as f64 * 0.37 + ((i * 7 + c) % 100) as f64 / 100.0)).collect::<Vec<_>>().join(", ") };
+    let dem = ser(349.0, 5, 3);
+    let bio = ser(438.8, 11, 7);
+    let out = ser(340.0, 5, 3);
+    let aux1 = ser(21.15, 3, 1);
+    let aux2 = ser(2.05, 7, 2);
+    let el = ser(120.0, 5, 3);
+    let amb = ser(240.0, 5, 3);
+    let pv = ser(60.0, 13, 5);
+    vec![
+        ("biomass DHW, auxiliaries in one line".to_string(), format!("DEMANDA, ACS, {dem}\n1, CONSUMO, ACS, BIOMASA, {bio}\n1, AUX, {aux1}\n")),
+        ("biomass DHW, auxiliaries in two lines".to_string(), format!("DEMANDA, ACS, {dem}\n1, CONSUMO, ACS, BIOMASA, {bio}\n1, AUX, {aux1}\n1, AUX, {aux2}\n")),
+        ("biomass DHW with declared output beside gas, auxiliaries".to_string(), format!("DEMANDA, ACS, {dem}\n1, CONSUMO, ACS, BIOMASA, {bio}\n1, SALIDA, ACS, {out}\n1, AUX, {aux1}\n2, CONSUMO, ACS, GASNATURAL, {aux2}\n")),
+        ("heat pump DHW with PV and auxiliaries".to_string(), format!("DEMANDA, ACS, {dem}\n1, CONSUMO, ACS, ELECTRICIDAD, {el}\n1, CONSUMO, ACS, EAMBIENTE, {amb}\n1, AUX, {aux2}\n0, PRODUCCION, EL_INSITU, {pv}\n")),
+    ]
+}
+
 pub fn run(ctx: &Ctx) -> i32 {
     let shared = Shared::new("C11", ctx);
+    explore(ctx, "DHW12: monthly DHW buildings with irregular hundredths, auxiliaries in one and two lines", Wide { alphabet: vec![], bases: dhw12_bases(), max_add: 0, repeat: false }, C11, shared.clone());
     flow_models(ctx, &shared, C11, FlowSpec { quick_depth: 2, thorough_depth: 3, extra: dhw_letters(), deep: true, heavy_oracle: true, seeded: true, t3: false, valuesets: false });
     // values near the code's absolute thresholds (0.01 kWh, 1e-3): hundredths of kWh
     let mut small = crate::alpha::flow(2, &[0, 1, 3], crate::alpha::Rich::Base);
